@@ -1,42 +1,56 @@
 #!/usr/bin/env python3
-"""Applies every seeded change under /verif/seeded to /repo (never committed), runs the test suite and the quick checks
-that should notice it, reverts, and writes /verif/seeded/<id>/result.json + /verif/seeded/matrix.json."""
+"""Applies every seeded change under /verif/seeded to the tree (never committed), runs the test suite and the quick checks
+that should notice it, reverts, and writes /verif/seeded/<id>/result.json; `--merge` collects them into /verif/seeded/matrix.json.
+usage: seeded_matrix.py [<ID>-m<k> ...]            on /repo itself (git -C /repo apply ... / git -C /repo checkout -- .)
+       MATRIX_REPO=<clone of /repo> seeded_matrix.py ...   the same on a scratch clone (checks run with VERIF_REPO=<clone>), so that several
+                                                           streams can run side by side; one stream per tree
+       seeded_matrix.py --merge"""
 import json, os, re, subprocess, sys, time
 SEEDED = "/verif/seeded"
-EXTRA = {"C01": ["C10", "C11"], "C02": ["C03", "C09"], "C10": ["C01"], "C06": ["C05"], "C17": ["C15"], "C16": ["C20"], "C09": ["C01"]}
+EXTRA = {"C01": ["C10", "C11", "C19"], "C02": ["C03", "C09"], "C10": ["C01", "C11"], "C06": ["C05", "C20"], "C17": ["C15", "C14", "C01"], "C16": ["C20"], "C09": ["C01"], "C11": ["C12"], "C07": ["C20"]}
+REPO = os.environ.get("MATRIX_REPO", "/repo")
 def sh(cmd, **kw): return subprocess.run(cmd, shell=True, capture_output=True, text=True, **kw)
+def merge():
+    m = {}
+    for d in sorted(os.listdir(SEEDED)):
+        rp = os.path.join(SEEDED, d, "result.json")
+        if os.path.exists(rp): m[d] = json.load(open(rp))
+    json.dump(m, open(os.path.join(SEEDED, "matrix.json"), "w"), indent=1)
+    print("merged %d results; not caught: %s" % (len(m), [k for k, v in m.items() if v.get("applies") and not v.get("caught_by")]))
+if sys.argv[1:] == ["--merge"]: merge(); sys.exit(0)
 only = sys.argv[1:]
-matrix = {}
+if REPO != "/repo":
+    if not os.path.isdir(os.path.join(REPO, ".git")): sh("git clone -q /repo %s" % REPO)
+    sh("cd %s && git fetch -q origin && git reset -q --hard origin/HEAD && git clean -fdq -e target" % REPO)
+head = sh("git -C %s rev-parse --short HEAD" % REPO).stdout.strip()
+assert head == sh("git -C /repo rev-parse --short HEAD").stdout.strip(), "clone is not at /repo's HEAD"
 for d in sorted(os.listdir(SEEDED)):
     p = os.path.join(SEEDED, d)
     if not os.path.isdir(p) or (only and d not in only): continue
     prop = d.split("-")[0]
     patch = os.path.join(p, "patch_rebased.diff") if os.path.exists(os.path.join(p, "patch_rebased.diff")) else os.path.join(p, "patch.diff")
-    assert sh("git -C /repo diff --quiet").returncode == 0, "repo dirty"
-    r = sh("git -C /repo apply --check %s" % patch)
+    assert sh("git -C %s diff --quiet" % REPO).returncode == 0, "tree dirty"
+    r = sh("git -C %s apply --check %s" % (REPO, patch))
     how = "git apply"
     if r.returncode != 0:
-        r3 = sh("git -C /repo apply --3way %s" % patch)
+        r3 = sh("git -C %s apply --3way %s" % (REPO, patch))
         if r3.returncode != 0:
-            sh("git -C /repo reset -q --hard HEAD"); matrix[d] = {"applies": False, "why": r.stderr[-300:]}; print(d, "DOES NOT APPLY"); continue
-        sh("git -C /repo reset -q"); how = "git apply --3way"
-    else: sh("git -C /repo apply %s" % patch)
-    res = {"applies": True, "applied_with": how, "patch": os.path.basename(patch), "checks": {}}
-    t = sh("cd /repo && cargo test --workspace --no-fail-fast --offline 2>&1 | grep -E '^test result'")
+            sh("git -C %s reset -q --hard HEAD" % REPO); res = {"applies": False, "why": r.stderr[-300:], "head": head}
+            json.dump(res, open(os.path.join(p, "result.json"), "w"), indent=1); print(d, "DOES NOT APPLY"); continue
+        sh("git -C %s reset -q" % REPO); how = "git apply --3way"
+    else: sh("git -C %s apply %s" % (REPO, patch))
+    res = {"applies": True, "applied_with": how, "patch": os.path.basename(patch), "head": head, "tree": "/repo" if REPO == "/repo" else "scratch clone of /repo at the same commit", "checks": {}}
+    t = sh("cd %s && cargo test --workspace --no-fail-fast --offline 2>&1 | grep -E '^test result'" % REPO)
     passed = sum(int(x) for x in re.findall(r"(\d+) passed", t.stdout)); failed = sum(int(x) for x in re.findall(r"(\d+) failed", t.stdout))
     res["test_suite"] = {"passed": passed, "failed_other_than_program_tests": failed - 1}
     for cid in [prop] + EXTRA.get(prop, []):
         t0 = time.time()
-        c = sh("cd /verif && timeout 3000 python3-vt run.py %s --tier quick" % cid)
+        c = sh("cd /verif && VERIF_REPO=%s timeout 3000 python3-vt run.py %s --tier quick" % (REPO, cid))
         v = [l for l in c.stdout.split("\n") if l.startswith("VIOLATION")]
         sigs = re.findall(r"signature=(\S+)", c.stdout)
         res["checks"][cid] = {"exit": c.returncode, "violations": len(v), "first_signatures": sigs[:3], "wall_s": round(time.time() - t0, 1)}
-    sh("git -C /repo checkout -- . && git -C /repo clean -fdq -e target")
+    sh("git -C %s checkout -- . && git -C %s clean -fdq -e target" % (REPO, REPO))
     res["caught_by"] = sorted(k for k, v in res["checks"].items() if v["exit"] == 1 and v["violations"] > 0)
     json.dump(res, open(os.path.join(p, "result.json"), "w"), indent=1)
-    matrix[d] = res
     print(d, "tests", res["test_suite"], "caught_by", res["caught_by"], {k: (v["exit"], v["violations"]) for k, v in res["checks"].items()}, flush=True)
-old = {}
-mp = os.path.join(SEEDED, "matrix.json")
-if only and os.path.exists(mp): old = json.load(open(mp))
-old.update(matrix); json.dump(old, open(mp, "w"), indent=1)
+merge()
